@@ -2,6 +2,8 @@ import Logrange.Proofs.Tags
 import Logrange.Proofs.Quote
 import Logrange.Proofs.FieldsKV
 import Logrange.Proofs.FieldsRT
+import Logrange.Proofs.FieldsConcat
+import Logrange.Proofs.ParsedKeys
 /-!
 # C08 — Tag lines and field lists the system emits parse back to the same values
 
@@ -18,7 +20,7 @@ given only that `\n` is not printable), and the harness evaluates it on the real
 -/
 namespace Logrange.Props.C08
 open Go Logrange.Quote Logrange.KV Logrange.Tags Logrange.FieldsKV Logrange.Proofs.KV Logrange.Proofs.Tags
-  Logrange.Proofs.FieldsKV Logrange.Proofs.FieldsRT
+  Logrange.Proofs.FieldsKV Logrange.Proofs.FieldsRT Logrange.Proofs.FieldsConcat Logrange.Proofs.ParsedKeys
 
 /-! ## The statements at full strength -/
 
@@ -284,5 +286,61 @@ example : (fromKV [97,61,34,120,44,121,34,44,98,61,44,99,61,120,34,121,34,122]).
 /-- `provenance_fields_partial` is not vacuous -/
 example : parse [97,61,34,120,44,121,34,44,98,61,49] = some [([97],[120,44,121]), ([98],[49])] ∧
     safe [([97],[120,44,121]), ([98],[49])] = true ∧ fitsFields [([97],[120,44,121]), ([98],[49])] = true := by decide +kernel
+
+/-! ## Names of parsed sets, `Concat`, the fields of a stored event -/
+
+/-- every piece `SplitString` returns is inert (so the parser never produces a name it could not read back) -/
+theorem split_pieces_inert (s : Bytes) (ps : List Bytes) (h : splitString s = some ps) :
+    ∀ p ∈ ps, scan p false = some false :=
+  Logrange.Proofs.ParsedKeys.split_pieces_inert s ps h
+
+/-- **The names of every parsed set are readable**: non-empty, trimmed, inert — for every accepted tag text. The only
+name defect reachable through `tag.Parse` is a leading `{` (`parsed_names_safeKey`); unbalanced quotes or blanks around a
+name can only come from `tag.MapToSet`. -/
+theorem parsed_names_readable (t : Bytes) (m : Map) (h : parse t = some m) :
+    ∀ p ∈ m, p.1 ≠ [] ∧ trimmed p.1 = true ∧ inert p.1 = true :=
+  Logrange.Proofs.ParsedKeys.parsed_names_readable t m h
+
+theorem parsed_names_safeKey (t : Bytes) (m : Map) (h : parse t = some m) :
+    ∀ p ∈ m, safeKey p.1 = true ∨ p.1.head? = some LB :=
+  Logrange.Proofs.ParsedKeys.parsed_names_safeKey t m h
+
+/-- **Round trip for parsed sets under the weaker, value-only hypothesis**: for an accepted tag text, if no name starts
+with `{` and every value either triggers quoting or is `safeRaw`, the emitted line parses back to exactly the same set
+(the name conditions of `safe` hold automatically for parsed sets). -/
+theorem tags_roundtrip_parsed (t : Bytes) (m : Map) (h : parse t = some m)
+    (hv : ∀ p ∈ m, p.1.head? ≠ some LB ∧ (needsQuote p.2 || safeRaw p.2) = true) : parse (line m) = some m := by
+  apply tags_roundtrip_partial t m h
+  unfold safe
+  rw [List.all_eq_true]
+  intro p hp
+  obtain ⟨hb, hval⟩ := hv p hp
+  rcases parsed_names_safeKey t m h p hp with hk | hk
+  · simp [safePair, hk, hval]
+  · exact absurd hk hb
+
+/-- `Concat` (what the ingestor stores for an event: write-level fields ++ the event's fields) preserves
+well-formedness and denotes the concatenation of the pieces -/
+theorem concat_WF (f g : Bytes) (hf : WF f) (hg : WF g) : WF (concat f g) :=
+  Logrange.Proofs.FieldsConcat.concat_WF f g hf hg
+
+theorem concat_decodes (f g : Bytes) (a b : List Bytes) (ha : decodeItems f.length f = some a)
+    (hb : decodeItems g.length g = some b) : decodeItems (concat f g).length (concat f g) = some (a ++ b) :=
+  Logrange.Proofs.FieldsConcat.concat_decodes f g a b ha hb
+
+/-- **The `Fields` text of a stored event parses back**: write-level field text `tf`, event field text `te`, both
+accepted; the stored list is their `Concat`; when the pairs (write-level first, then the event's) are in `safeFields`,
+`AsKVString` prints exactly those pairs and `NewFieldsFromKVString` reads the text back as the stored bytes. -/
+theorem stored_event_fields_roundtrip (tf te : Bytes) (a b : List Bytes) (ha : fromKVItems tf = some a)
+    (hb : fromKVItems te = some b) (hs : safeFields (pairsOf a ++ pairsOf b) = true) :
+    ∃ fa fb, fromKV tf = some fa ∧ fromKV te = some fb ∧
+      asKV (concat fa fb) = .ok (kvText (pairsOf a ++ pairsOf b)) ∧
+      fromKV (kvText (pairsOf a ++ pairsOf b)) = some (concat fa fb) :=
+  Logrange.Proofs.FieldsConcat.stored_event_fields_roundtrip tf te a b ha hb hs
+
+/-- non-vacuity: write-level `app=web`, event `lvl="a,b"` -/
+example : fromKVItems [97,112,112,61,119,101,98] = some [[97,112,112],[119,101,98]] ∧
+    fromKVItems [108,118,108,61,34,97,44,98,34] = some [[108,118,108],[97,44,98]] ∧
+    safeFields (pairsOf [[97,112,112],[119,101,98]] ++ pairsOf [[108,118,108],[97,44,98]]) = true := by decide +kernel
 
 end Logrange.Props.C08
